@@ -49,6 +49,8 @@ def gen_spec(rng):
             fd["prod"] = {str(rng.randrange(n)): {"p": str(rng.choice([F(1, 100), F(1, 10)]))}}
     if spec.get("mg"):
         spec["mg"]["mode"] = rng.choice(["survival", "full", "limited"])
+        if spec["mg"].get("battery") and rng.random() < 0.5:      # optional constructor argument: a given start level
+            spec["mg"]["battery"]["soc_start"] = str(rng.choice([F(1, 2), F(3, 10), F(9, 10)]))
     return spec
 
 
@@ -163,6 +165,16 @@ def handler(case):
             if bad:
                 k = sorted(bad)[0]
                 viols.append(("files.rows", f"{entry}: {len(bad)} of {len(counts)} Monte Carlo files do not have one record per iteration, e.g. {k}: {bad[k]}"))
+            # the sequence files of every saved iteration: one record per increment that iteration logged
+            seqroot = os.path.join(d, "sequence")
+            for it in sorted(os.listdir(seqroot)) if os.path.isdir(seqroot) else []:
+                cts = {os.path.relpath(os.path.join(dp, fn), d): rows(os.path.join(dp, fn)) for dp, _, fns in os.walk(os.path.join(seqroot, it)) for fn in fns}
+                ref = [v for k, v in cts.items() if k.endswith(os.path.join(ps.name, "ENS.csv"))]
+                if ref:
+                    badr = {k: v for k, v in cts.items() if v != ref[0]}
+                    if badr:
+                        k = sorted(badr)[0]
+                        viols.append(("files.rows-iteration", f"{entry}: saved iteration {it}: {len(badr)} of {len(cts)} sequence files do not have one record per logged increment ({ref[0]}), e.g. {k}: {badr[k]}"))
             sig.append((mode, len(counts) > 0))
     spec = case["spec"]
     nt = (spec["ctrl"]["type"], bool(spec["ctrl"].get("ict")), bool(spec.get("mg")), any("ev" in fd for fd in spec["feeders"]), case["unit"], tuple(sig))
@@ -171,6 +183,17 @@ def handler(case):
 
 def gen(rng, n, nh=0):
     cases = []
+    for _ in range(max(7, n // 2)):
+        # several saved Monte Carlo iterations in one process with different failure histories, optional constructor
+        # arguments in use (battery start level), EV parks: every saved iteration must have consistent sequence files
+        spec = gen_spec(rng)
+        while not spec.get("mg"):
+            spec = gen_spec(rng)
+        spec["mg"]["battery"] = dict(spec["mg"].get("battery") or {"p": "1", "q": "1", "e": "2", "smin": "1/10", "smax": "1", "eta": "1"})
+        spec["mg"]["battery"]["soc_start"] = str(rng.choice([F(1, 2), F(3, 10), F(9, 10)]))
+        cases.append({"kind": "run", "spec": spec, "unit": 3, "dt": "1", "hours": str(rng.choice([10, 16])), "nprof": 24,
+                      "start": [0, rng.randint(0, 23), 0], "seed": rng.randint(0, 10 ** 6), "rate": rng.choice([600.0, 1500.0]),
+                      "trafo_rate": 0.0, "entries": ["mc-debug/save"]})
     for _ in range(nh):
         # steps that are not binary fractions of the reporting unit: 1 h in days / weeks, 20 / 10 / 6 min in hours, 1 s in hours ...
         u, dt_s = rng.choice([(4, 3600), (4, 1800), (5, 3600), (3, 1200), (3, 600), (3, 360), (3, 60), (2, 20), (2, 1), (3, 1), (4, 7200), (3, 3600), (2, 60)])
